@@ -56,4 +56,74 @@ example :
     (s.folders.map (fun g => (g.files.map (·.id), g.deletedFiles.map (·.id)))) = [([], []), ([2], [3]), ([], [])] := by
   decide
 
+/-! ### translator tie: the tables regenerated from the source agree with what the model assumes -/
+
+/-- The request trees, handler functions, validator bodies and the cleaned bodies of every transcribed method are,
+verbatim, the text the model was written against (`Lemmas/FileSystemSnapshot.lean`). A change to any of them breaks
+this obligation. -/
+theorem C15_gen_source_snapshot :
+    Gen.FileSystem.methods = Snapshot.methods ∧ Gen.FileSystem.fsHandlers = Snapshot.fsHandlers ∧
+    Gen.FileSystem.fsTree = Snapshot.fsTree ∧ Gen.FileSystem.folderTree = Snapshot.folderTree ∧
+    Gen.FileSystem.validators = Snapshot.validators :=
+  ⟨rfl, rfl, rfl, rfl, rfl⟩
+
+/-- The request names an item registers are exactly the model's five verbs, bound to the methods the model
+transcribes; every other name is `unreachable`. -/
+theorem C15_gen_item_verbs :
+    Gen.FileSystem.itemVerbs =
+      [("scan", "scan"), ("checkhash", "check_hash"), ("repair", "repair"), ("restore", "restore"), ("corrupt", "corrupt")] ∧
+    Gen.FileSystem.itemVerbs.map (fun p => verbOf p.1) = [.scan, .checkhash, .repair, .restore, .corrupt] := by
+  decide
+
+/-- `scan/repair/corrupt` of files and folders start with the deleted-guard (answer `False`) and otherwise answer `True`;
+`check_hash` answers `False` unconditionally — which is what `File.verb` / `Folder.verb` return. -/
+theorem C15_gen_guards :
+    Gen.FileSystem.guards =
+      [("Folder.scan", true, true), ("Folder.repair", true, true), ("Folder.corrupt", true, true),
+       ("Folder.check_hash", true, false), ("File.scan", true, true), ("File.repair", true, true),
+       ("File.corrupt", true, true), ("File.check_hash", true, false)] ∧
+    (∀ f : File, (f.verb .scan).map (·.2) = some (!f.deleted) ∧ (f.verb .repair).map (·.2) = some (!f.deleted) ∧
+      (f.verb .corrupt).map (·.2) = some (!f.deleted) ∧ (f.verb .checkhash).map (·.2) = some false) ∧
+    (∀ g : Folder, (g.verb .scan).map (·.2) = some (!g.deleted) ∧ (g.verb .repair).map (·.2) = some (!g.deleted) ∧
+      (g.verb .corrupt).map (·.2) = some (!g.deleted) ∧ (g.verb .checkhash).map (·.2) = some false) := by
+  refine ⟨by decide, ?_, ?_⟩ <;> intro x <;> simp [File.verb, Folder.verb]
+
+/-- Field defaults the model's `init` and fresh items rely on. -/
+theorem C15_gen_constants :
+    Gen.FileSystem.folderRestoreDuration = ({ id := 0, name := "" } : Folder).restoreDuration ∧
+    Gen.FileSystem.folderRestoreCountdown = ({ id := 0, name := "" } : Folder).restoreCountdown ∧
+    Gen.FileSystem.itemDeletedDefault = ({ id := 0, name := "" } : Folder).deleted ∧
+    Gen.FileSystem.itemDeletedDefault = ({ id := 0, name := "" } : File).deleted ∧
+    Gen.FileSystem.defaultFolderRestoreDuration = "None" ∧
+    Gen.FileSystem.numFileCreationsDefault = (init none).numCreations ∧
+    Gen.FileSystem.numFileDeletionsDefault = (init none).numDeletions := by
+  decide
+
+/-- Every file/folder agent action forms exactly the request whose model operation is the one the rig drives for it;
+in particular `node-file-create` carries `config.force` (not the verb) as the force element. -/
+theorem C15_gen_actions (n F x : String) (force : Bool) :
+    ofNodeRequest (Gen.FileSystem.nodeFileCreate n F x (if force then "1" else "0")) = some (.createFile F x force) ∧
+    ofNodeRequest (Gen.FileSystem.nodeFileDelete n F x) = some (.deleteFile F x) ∧
+    ofNodeRequest (Gen.FileSystem.nodeFileAccess n F x) = some (.access F x) ∧
+    ofNodeRequest (Gen.FileSystem.nodeFileScan n F x) = some (.fileVerb F x .scan) ∧
+    ofNodeRequest (Gen.FileSystem.nodeFileCheckhash n F x) = some (.fileVerb F x .checkhash) ∧
+    ofNodeRequest (Gen.FileSystem.nodeFileRepair n F x) = some (.fileVerb F x .repair) ∧
+    ofNodeRequest (Gen.FileSystem.nodeFileRestore n F x) = some (.fileVerb F x .restore) ∧
+    ofNodeRequest (Gen.FileSystem.nodeFileCorrupt n F x) = some (.fileVerb F x .corrupt) ∧
+    ofNodeRequest (Gen.FileSystem.nodeFolderCreate n F) = some (.createFolder F) ∧
+    ofNodeRequest (Gen.FileSystem.nodeFolderScan n F) = some (.folderVerb F .scan) ∧
+    ofNodeRequest (Gen.FileSystem.nodeFolderCheckhash n F) = some (.folderVerb F .checkhash) ∧
+    ofNodeRequest (Gen.FileSystem.nodeFolderRepair n F) = some (.folderVerb F .repair) ∧
+    ofNodeRequest (Gen.FileSystem.nodeFolderRestore n F) = some (.folderVerb F .restore) ∧
+    Gen.FileSystem.actionNames =
+      ["node-file-create", "node-file-scan", "node-file-delete", "node-file-restore", "node-file-corrupt",
+       "node-file-access", "node-file-checkhash", "node-file-repair", "node-folder-scan", "node-folder-checkhash",
+       "node-folder-repair", "node-folder-restore", "node-folder-create"] := by
+  cases force <;>
+    simp [ofNodeRequest, ofRequest, verbOf, Gen.FileSystem.nodeFileCreate, Gen.FileSystem.nodeFileDelete,
+      Gen.FileSystem.nodeFileAccess, Gen.FileSystem.nodeFileScan, Gen.FileSystem.nodeFileCheckhash,
+      Gen.FileSystem.nodeFileRepair, Gen.FileSystem.nodeFileRestore, Gen.FileSystem.nodeFileCorrupt,
+      Gen.FileSystem.nodeFolderCreate, Gen.FileSystem.nodeFolderScan, Gen.FileSystem.nodeFolderCheckhash,
+      Gen.FileSystem.nodeFolderRepair, Gen.FileSystem.nodeFolderRestore, Gen.FileSystem.actionNames]
+
 end Primaite.FileSystem
